@@ -135,7 +135,7 @@ CONFIG = {
         "verif hook VerifLockIsFree (TryLock+Unlock), Go harness harness/cmd/locks, Gallina printer, evaluator Corr.v",
     ],
     "manifest": {
-        "level_text": "Machine-checked soundness (Coq) of an executable lock-balance checker over all control-flow paths of a structured skeleton language (branches, unbounded loops, LIFO defers, recursive calls through checked summaries); the skeleton of every function of the seven packages is regenerated from the Go sources on every run and the obligation repo_balanced is re-proved by vm_compute. LockPile's algorithm is modelled as a small-step system over threads and try-lockable mutexes with theorems pile_holds_exactly, pile_blocks_bare and no_deadlock for all interleavings. A harness checks the directory mutexes after every call through a TryLock hook and runs concurrent storms with a watchdog.",
+        "level_text": "Machine-checked soundness (Coq) of an executable lock-balance checker over all control-flow paths of a structured skeleton language (branches, unbounded loops, LIFO defers, recursive calls through checked summaries); the skeleton of every function of the seven packages is regenerated from the Go sources on every run (plus pkg/clock, whose goroutines receive a locked mutex from their parent) and the obligation repo_balanced is re-proved by vm_compute. LockPile's algorithm is modelled as a small-step system over threads and try-lockable mutexes with theorems pile_holds_exactly, pile_blocks_bare and no_deadlock for all interleavings. A harness checks the directory mutexes after every call through a TryLock hook and runs concurrent storms with a watchdog.",
         "level_note": "Trusted: Coq kernel+VM, the translator (fails loudly on unknown lock constructs), the semantics of the skeleton language, the hand-written LockPile model. Partial: absence of livelock under try-lock back-off needs a fairness assumption and is not proved; lock-order between mutex classes outside LockPile is exercised dynamically only.",
         "technique": "machine-checked proof in Coq (abstract interpretation proved sound against a big-step path semantics; invariant over a small-step concurrent system) + source-to-Coq translation re-checked on every run + dynamic lock-free hook",
         "design_ref": "DESIGN.md §4 Locks — C14",
